@@ -1,5 +1,39 @@
 """Per-property additions: oracle runs on real observations, known-finding matching, replay."""
-EXTRA = {}
+import os, re, subprocess, tempfile, shutil
+
+def goyacc_regen(ctx):
+    """C04, last sentence: the shipped parser is what goyacc generates from chords.y (decided directly)."""
+    import crdcheck
+    tmp = tempfile.mkdtemp(prefix='crdgy-')
+    try:
+        out = os.path.join(tmp, 'out.go')
+        p = crdcheck.run(['go', 'tool', 'goyacc', '-o', out, '-v', os.path.join(tmp, 'y.output'), 'input/ast/chords.y'],
+                         cwd=crdcheck.REPO, env=crdcheck.goenv())
+        def norm(path):
+            return [l for l in open(path, encoding='utf-8').read().split('\n')
+                    if not l.startswith('//line') and not l.startswith('// Code generated')]
+        violations = []
+        if p.returncode != 0 or not os.path.exists(out):
+            violations.append(dict(what='goyacc cannot regenerate the parser from chords.y: ' + p.stderr.decode(errors='replace')[-300:],
+                                   input='input/ast/chords.y', stream='goyacc-regen'))
+            n = 0
+        else:
+            a, b = norm(out), norm(os.path.join(crdcheck.REPO, 'input/ast/chords_goyacc_generated.go'))
+            n = len(a)
+            if a != b:
+                diff = next((i for i, (x, y) in enumerate(zip(a, b)) if x != y), min(len(a), len(b)))
+                violations.append(dict(what='the committed parser is not what goyacc generates from chords.y (first difference at line %d)' % (diff + 1),
+                                       input='input/ast/chords.y vs input/ast/chords_goyacc_generated.go', stream='goyacc-regen',
+                                       regenerated=a[diff:diff + 3], committed=b[diff:diff + 3]))
+        return dict(stream=dict(name='goyacc-regen', cases=1, distinct=1, diffs=[], stats={'lines-compared': n},
+                                samples=['go tool goyacc -o <tmp> input/ast/chords.y == chords_goyacc_generated.go (modulo header and //line)']),
+                    violations=violations)
+    finally:
+        shutil.rmtree(tmp, ignore_errors=True)
+
+EXTRA = {
+    'C04': dict(oracles=[goyacc_regen]),
+}
 
 def matches(finding, violation):
     """does a concrete violation fall under a recorded known finding?"""
